@@ -523,7 +523,10 @@ def run_case(c):
             extra['grid_count'] = {key: 1}
             if abs(sg[ib] - sg_x) > TOL * unit:
                 grid_ok = False
-                kind = 'grid-undercount' if sg[ib] < sg_x else 'grid-overcount'
+                if abs(counted - round(counted)) > 1e-6:
+                    kind = 'grid-loss-closed-form'      # not a whole number of K rho v^2 / 2
+                else:
+                    kind = 'grid-undercount' if sg[ib] < sg_x else 'grid-overcount'
                 near = []
                 for gz in want:
                     i = int(np.searchsorted(z, gz))
